@@ -48,7 +48,7 @@ def handle : List String → String
   | ["rabin", poly, avg, mn, mx, seed, data] =>
     match parseHexU64 poly, avg.toNat?, mn.toNat?, mx.toNat?, seed.toNat?, unhex data with
     | some poly, some avg, some mn, some mx, some seed, some bs =>
-      if mn = 0 then "nonterminating" else
+      if !checkRabinParams avg mn mx then "err:Unsupported" else
       let t := Tables.mk' Rustic.Gen.WINDOW_BITS poly
       let p : Params := { min := mn, max := mx, mask := (avg - 1).toUInt64, win := Rustic.Gen.PREFILL_SLICE }
       let st := St.init Rustic.Gen.BUF_SIZE bs (mkSched seed.toUInt64 (seed % 50))
